@@ -108,6 +108,13 @@ def synthetic_maps(max_off: int = 3) -> list[str]:
 def mappings_for(offs: list[int], rng: random.Random, n: int, max_new: int) -> list[list[list[int]]]:
     """injective partial maps old -> new, incl. dropping and non-monotone ones"""
     out = [[[o, o] for o in offs], [[o, o + 10] for o in offs], [], [[o, max_new - i] for i, o in enumerate(offs)]]
+    # compaction: some ops dropped, the survivors renumbered densely from 0 (what an optimising assembler does)
+    for drop in ([o for o in offs if o % 2 == 1], [o for o in offs if o % 3 != 2], offs[1:3], offs[2:5]):
+        keep = [o for o in offs if o not in drop]
+        out.append([[o, i] for i, o in enumerate(keep)])
+    for _ in range(n):
+        keep = [o for o in offs if rng.random() < 0.6]
+        out.append([[o, i] for i, o in enumerate(keep)])
     for _ in range(n):
         dom = [o for o in offs if rng.random() < 0.7]
         img = rng.sample(range(max_new + 1), len(dom)) if len(dom) <= max_new + 1 else list(range(len(dom)))
